@@ -42,8 +42,12 @@ func (w *waitGroup[T]) Add(elements ...T) {
 	// then add the elements (and correct the counter if the elements are already present)
 	for _, element := range elements {
 		if !w.pendingElements.Add(element) {
+			verifYield("waitgroup-add-duplicate")
+
 			w.pendingElementsCounter.Add(-1)
 		}
+
+		verifYield("waitgroup-add-inserted")
 	}
 }
 
